@@ -217,6 +217,9 @@ func (r *replication) replicate(c *conn, req *appendReq) error {
 			go func() {
 				drained <- drainResps()
 			}()
+			// note: drainResps returns at the first read error, the pipeline writer may
+			// still be using the conn then. c.rwc must not be cleared under it: closing
+			// the conn fails its pending write, and it closes resultCh when it is done
 			select {
 			case err := <-drained:
 				if trace {
@@ -224,6 +227,8 @@ func (r *replication) replicate(c *conn, req *appendReq) error {
 				}
 				if err != nil {
 					_ = c.rwc.Close()
+					for range resultCh {
+					}
 					c.rwc = nil // to signal runLoop that we closed the conn
 				}
 			case <-time.After(timeout):
@@ -232,6 +237,8 @@ func (r *replication) replicate(c *conn, req *appendReq) error {
 				}
 				_ = c.rwc.Close()
 				<-drained
+				for range resultCh {
+				}
 				if trace {
 					println(r, "drain completed")
 				}
@@ -285,6 +292,12 @@ func (r *replication) replicate(c *conn, req *appendReq) error {
 					return r.onAppendEntriesResp(resp, result.lastIndex) // notifies ldr and return errStop
 				}
 				if err = drainResps(); err != nil {
+					// the writer may still be running: do not hand the conn
+					// and the replication state back to runLoop under it
+					_ = c.rwc.Close()
+					for range resultCh {
+					}
+					c.rwc = nil
 					return err
 				}
 				break
